@@ -42,6 +42,9 @@ func WithHistogramDataPointAttributes(attrs Map) func(HistogramDataPoint) {
 
 func WithHistogramDataPointStatistics(values []float64) func(HistogramDataPoint) {
 	return func(hdp HistogramDataPoint) {
+		if len(values) == 0 {
+			return
+		}
 		hdp.raw.Sum = new(float64)
 		hdp.raw.Min = &values[0]
 		hdp.raw.Max = &values[len(values)-1]
